@@ -349,7 +349,10 @@ class LoopAnalysis:
         if fn in self._work:
             return self._work[fn]
         if fn in stack:
-            return (UNBOUNDED, [{"fn": fn, "header": "-", "rule": "recursion", "bound": "inf"}])
+            nm = llir.demangle_legacy(fn) if fn.startswith("_ZN") else fn
+            return (UNBOUNDED, [{"fn": nm, "header": "-", "depth": 0, "rule": "recursion", "bound": "inf",
+                                 "scev_max": None, "symbolic": "recursive call", "where": "recursive call of " + nm[-100:],
+                                 "src_fn": engine_a.normalise_fn(nm)}])
         f = self.mod.funcs[fn]
         body = self.body(fn)
         succ = self.successors(fn)
